@@ -45,6 +45,7 @@ class Explorer:
         self.max_paths = max_paths
         self.float_mode = float_mode
         self.budget_s = 600.0
+        self.deadline = None
         self.on_fail = None
         self.stop = False
         self.fallback = fallback  # callable(smt2 text, secs) -> 'unsat'|'sat'|'unknown'
@@ -155,6 +156,8 @@ class Explorer:
         """Resolve a symbolic condition to a python bool, forking when both are feasible."""
         if isinstance(cond, bool):
             return cond
+        if self.deadline and time.time() > self.deadline:
+            raise Unsupported(f"time budget {self.budget_s}s exceeded inside a path")
         cond = z3.simplify(cond)
         if z3.is_true(cond):
             return True
@@ -294,6 +297,7 @@ class Explorer:
         """run_once() executes the harness once under the current prefix."""
         self.live_from = 0
         t_start = time.time()
+        self.deadline = t_start + self.budget_s * 1.2
         while True:
             if time.time() - t_start > self.budget_s:
                 self.ends.append(PathEnd(self.n_paths, "unsupported", f"time budget {self.budget_s}s exceeded after {self.n_paths} paths"))
